@@ -6,3 +6,4 @@ from . import tiles_c  # noqa: F401
 from . import geobox_c  # noqa: F401
 from . import gridspec_c  # noqa: F401
 from . import s3_c  # noqa: F401
+from . import values_c  # noqa: F401
